@@ -136,7 +136,7 @@ func vC22Model(tr *lib.Trace, r *rand.Rand, n int) {
 				if s := g.singletonJoin(); s != nil && g.valid(s) {
 					q = s
 				}
-			case 2:
+			case 2, 4:
 				if s := g.fixedRightJoin(); s != nil {
 					q = s
 				}
